@@ -94,3 +94,117 @@ Proof.
     rewrite ?andb_false_r; repeat split; try reflexivity;
     unfold is_sl in Esl; apply N.eqb_eq in E63 || apply N.eqb_eq in E35; subst c; discriminate Esl.
 Qed.
+
+(* ---------- the crate's join agrees on C01's one-slash classes ---------- *)
+(* C01's classes for the scheme-less one-slash reference: in_class_file_rel_one (no drive letter carried: the text
+   behind the separator does not start with a drive letter and the first segment of the base path is not a normalized
+   drive letter, base with a host field - or the text starts with a drive letter and the base has the EMPTY host) and
+   in_class_file_rel_one_carry (base with the empty host whose first path segment is a normalized drive letter: both
+   sides carry it over); the path loop inside fpath_ok / strip_stable in both *)
+Definition in_class_file_one_any (sb : spec_url) (input : list N) : bool :=
+  in_class_file_rel_one sb input || in_class_file_rel_one_carry sb input.
+
+Lemma in_class_file_one_pre sb input : in_class_file_one_any sb input = true ->
+  has_opaque_path sb = false /\ list_eqb (su_scheme sb) str_file = true /\ std_file_one_pre (spec_clean input) = true.
+Proof.
+  unfold in_class_file_one_any, in_class_file_rel_one, in_class_file_rel_one_carry, file_one_ok, file_one_carry_ok,
+    std_file_one_pre.
+  intros H. apply orb_true_iff in H. destruct H as [H|H].
+  - apply andb_true_iff in H. destruct H as [H Hok]. apply andb_true_iff in H. destruct H as [Hop Hf].
+    apply negb_true_iff in Hop. split; [exact Hop|]. split; [exact Hf|].
+    destruct (spec_clean input) as [|c1 R1]; [discriminate Hok|].
+    apply andb_true_iff in Hok. destruct Hok as [Hok _]. apply andb_true_iff in Hok. destruct Hok as [Hok _]. exact Hok.
+  - apply andb_true_iff in H. destruct H as [H Hok]. apply andb_true_iff in H. destruct H as [H _].
+    apply andb_true_iff in H. destruct H as [H _]. apply andb_true_iff in H. destruct H as [Hop Hf].
+    apply negb_true_iff in Hop. split; [exact Hop|]. split; [exact Hf|].
+    destruct (spec_clean input) as [|c1 R1]; [discriminate Hok|].
+    apply andb_true_iff in Hok. destruct Hok as [Hok _]. apply andb_true_iff in Hok. destruct Hok as [Hok _].
+    apply andb_true_iff in Hok. destruct Hok as [Hok _]. exact Hok.
+Qed.
+
+Section AgreeFileOne.
+Variable dbg : bool.
+Variable hp hpo : list N -> result host.
+Variable hd : host -> list N.
+Variable shp : bool -> list N -> option spec_host.
+Variable shs : spec_host -> list N.
+Hypothesis Hse : shs SEmpty = [].
+
+Theorem std_contain_file_one_agree b sb input : usv_list input -> related dbg shs b sb -> spec_base_ok sb = true ->
+  in_class_file_one_any sb input = true ->
+  exists su, spec_basic_url_parse shp input (Some sb) = BDone su /\ spec_same_front sb su
+    /\ ((parse_url dbg hp hpo hd None (Some b) input = PErr Overflow /\ U32_MAX_P < nlen (get_href shs su))
+        \/ exists u', parse_url dbg hp hpo hd None (Some b) input = POk u' /\ related dbg shs u' su
+                      /\ full_base dbg shs u' su
+                      /\ option_map api_front (api_of_model dbg u') = option_map api_front (api_of_model dbg b)).
+Proof.
+  intros Hu R Hbok Hc.
+  destruct (in_class_file_one_pre sb input Hc) as (Hop & Hf & Hpre).
+  destruct (std_contain_file_one shp input sb (rel_valid _ _ _ _ R) Hop Hf Hpre) as (su & HS & HF & _).
+  exists su. split; [exact HS|]. split; [exact HF|].
+  assert (agree_good dbg shs (parse_url dbg hp hpo hd None (Some b) input) (spec_basic_url_parse shp input (Some sb))
+          /\ (forall su u, spec_basic_url_parse shp input (Some sb) = BDone su ->
+                parse_url dbg hp hpo hd None (Some b) input = POk u -> full_base dbg shs u su)) as [A FB].
+  { unfold in_class_file_one_any in Hc. apply orb_true_iff in Hc. destruct Hc as [Hc|Hc].
+    - exact (class_file_rel_one dbg hp hpo hd shp shs Hse input b sb Hu R Hbok Hc).
+    - exact (class_file_rel_one_carry dbg hp hpo hd shp shs Hse input b sb Hu R Hc). }
+  rewrite HS in A. cbn [agree_good] in A. destruct A as [_ [[E L]|(u' & E & Ru)]]; [left; split; assumption|].
+  right. exists u'. split; [exact E|]. split; [exact Ru|]. split; [exact (FB su u' HS E)|].
+  rewrite (rel_api _ _ _ _ Ru), (rel_api _ _ _ _ R). cbn [option_map]. rewrite (spec_front_api shs sb su HF). reflexivity.
+Qed.
+End AgreeFileOne.
+
+(* ---------- non-vacuity ---------- *)
+From RU Require Import Model.Host Proofs.C09_Host Spec.WhatwgHostParse.
+(* the Standard side alone: base = the Standard's parse result of `base`; every reference meets std_file_all_pre
+   through the named premise, the Standard succeeds, scheme / hostname / port text of the result are the base's *)
+Definition std_fs_case (base : list N) (refs : list (list N)) : bool :=
+  let idna := ex_idna_clean in
+  match spec_basic_url_parse (spec_host_parser idna) base None with
+  | BDone sb =>
+      negb (has_opaque_path sb) && list_eqb (su_scheme sb) str_file
+      && forallb (fun r =>
+           (std_file_simple_pre (spec_clean r) || std_file_one_pre (spec_clean r))
+           && std_file_all_pre sb (spec_clean r)
+           && match spec_basic_url_parse (spec_host_parser idna) r (Some sb) with
+              | BDone su =>
+                  list_eqb (su_scheme su) (su_scheme sb)
+                  && list_eqb (get_hostname spec_host_serializer su) (get_hostname spec_host_serializer sb)
+                  && list_eqb (get_host spec_host_serializer su) (get_host spec_host_serializer sb)
+                  && list_eqb (get_port su) (get_port sb)
+              | _ => false
+              end) refs
+  | _ => false
+  end.
+
+(* with the crate: base on both sides, references in C01's one-slash classes; both succeed, the Standard's href is the
+   model's serialization and equals the expected text *)
+Definition std_fs_agree_case (base : list N) (refs : list (list N * list N)) : bool :=
+  let idna := ex_idna_clean in
+  match parse_url true (host_parse idna) host_parse_opaque host_display None None base,
+        spec_basic_url_parse (spec_host_parser idna) base None with
+  | POk b, BDone sb =>
+      spec_base_ok sb
+      && forallb (fun re =>
+           in_class_file_one_any sb (fst re)
+           && match spec_basic_url_parse (spec_host_parser idna) (fst re) (Some sb),
+                    parse_url true (host_parse idna) host_parse_opaque host_display None (Some b) (fst re) with
+              | BDone su, POk u' =>
+                  list_eqb (get_hostname spec_host_serializer su) (get_hostname spec_host_serializer sb)
+                  && list_eqb (get_href spec_host_serializer su) (ser u')
+                  && list_eqb (ser u') (snd re)
+              | _, _ => false
+              end) refs
+  | _, _ => false
+  end.
+
+From Coq Require Import String.
+From RU Require Import Proofs.C02_Reach.
+Open Scope string_scope.
+Lemma std_contain_file_slash_inhabited :
+  std_fs_case (B "file://h.x/tmp/d?q") [B ""; B "?x"; B "#f"; B "/p"; B "\p"; B "/C:/x"; B " /a/../b?k#g"] = true
+  /\ std_fs_case (B "file:///C:/tmp/d?q") [B ""; B "?x"; B "#f"; B "/p"; B "\p"] = true
+  /\ std_fs_agree_case (B "file://h.x/tmp/d?q")
+       [(B "/p", B "file://h.x/p"); (B "\p", B "file://h.x/p"); (B "/a/../b?k#g", B "file://h.x/b?k#g")] = true
+  /\ std_fs_agree_case (B "file:///C:/tmp/d?q") [(B "/p", B "file:///C:/p"); (B "/", B "file:///C:/")] = true.
+Proof. vm_compute. repeat split. Qed.
